@@ -51,9 +51,12 @@ OUTPUTS = ("none", "file", "file_abs", "dir", "dirslash", "dirlink", "stdout", "
 # (the physical parent) is the documented place. (Added after seeded changes C09-11 and C09-10.)
 PRE_FILE_CONTENTS = (b"precious bytes\n", b"", b"precious bytes\n" * 5000, b"", b"d4:infod6:lengthi0eee")
 PRE = ("absent", "file", "dir", "dangling", "link_file", "dangling_noparent", "stem_sibling")
-NAMES = ("none", "plain", "sub", "up", "abs", "dotdot", "dot", "empty", "trail", "longmid", "dots3", "tar", "abc", "hid", "xdot")
-# acceptable names with a dot in them: the output is `<name>.torrent` appended to the whole name
-DOTTED_NAMES = {"tar": b"a.tar", "abc": b"a.b.c", "hid": b".hid", "xdot": b"x."}
+NAMES = ("none", "plain", "sub", "up", "abs", "dotdot", "dot", "empty", "trail", "longmid", "dots3", "tar", "abc", "hid", "xdot", "n247", "n250")
+# acceptable names with a dot in them: the output is `<name>.torrent` appended to the whole name. Also two names next to NAME_MAX:
+# 247 bytes (`<name>.torrent` has exactly 255 and fits) and 250 bytes (`<name>.torrent` cannot exist: where the name decides the
+# file name create fails and writes nothing; it never writes under another name - added after seeded change C09-17: the stem cut
+# to 247 bytes). The file system's refusal is outside Model/CreateFs.v: those cells are judged by the snapshot oracle alone.
+DOTTED_NAMES = {"tar": b"a.tar", "abc": b"a.b.c", "hid": b".hid", "xdot": b"x.", "n247": b"N" * 247, "n250": b"M" * 250}
 DOTTED_CAUSES = ("none", "allowed_small", "lint_small")
 NAME_USING_OUTS = ("none", "dir", "dirslash", "dirlink")      # output kinds in which the name decides the file name
 # names `torrent create` must refuse: not exactly one normal path component
@@ -79,10 +82,12 @@ def valid(c):
         return False
     if inp in DOTTED_INPUTS and name not in ("none", "plain") and name not in DOTTED_NAMES:
         return False
-    if name in ("abc", "xdot") and inp in ("dot", "abs", "unclean", "symlink_follow"):
+    if name in ("abc", "xdot", "n247", "n250") and inp in ("dot", "abs", "unclean", "symlink_follow"):
         return False      # the rarer dotted names are crossed with the plain and the dotted input shapes only
     if name in BAD_NAMES and name != "up" and cause in ("post_open", "bad_glob", "read_err", "stdin_err"):
         return False      # a refused name other than the historical witness: the causes consulted right after it suffice
+    if pre == "stem_sibling" and name in ("n247", "n250"):
+        return False      # the sibling's name would be longer still
     if pre == "stem_sibling" and not (dotted and out in NAME_USING_OUTS and cause in ("none", "allowed_small") and not c["dry"]
                                       and not (inp == "stdin" and out == "none")):
         return False      # a second name with the same stem, created first into the same place: needs a dotted name that is used
@@ -299,7 +304,8 @@ def build(S, c, rng):
         final = j(target, eff_name + b".torrent") if plainname else None
     # pre-existing state at the path the torrent would be written to
     pre = c["pre"]
-    if pre != "absent" and final is not None and os.path.isdir(os.path.dirname(final)) and not os.path.lexists(final):
+    if pre != "absent" and final is not None and len(os.path.basename(final)) <= 255 and os.path.isdir(os.path.dirname(final)) \
+            and not os.path.lexists(final):
         if pre == "file":
             # what is already there varies: a few bytes, nothing at all (a placeholder left by mktemp / touch / an interrupted
             # run), something longer than any torrent written here  (added after seeded change C09-14: an empty file at the
@@ -723,6 +729,11 @@ def run(ctx):
         elif r["problems"]:
             ctx.violation("oracle-failure", "create %s: %s" % (json.dumps(cell, sort_keys=True), r["problems"][0]),
                           dict(case, oracle=r["problems"]))
+        elif cell["name"] == "n250" and cell["out"] in NAME_USING_OUTS:
+            ctx.count("name_longer_than_the_file_system_allows_judged_by_snapshots_only")
+            if r["rc"] == 0 and not cell["dry"]:
+                ctx.violation("oracle-failure", "create %s: exit status 0 although `<name>.torrent` (258 bytes) cannot exist in a directory"
+                              % json.dumps(cell, sort_keys=True), case)
         else:
             if mobs != r["impl_obs"]:
                 ctx.cov["disagreements_checked"] += 1
